@@ -918,6 +918,52 @@ func checkPageTagging(c *Ctx, rule string) {
 			nextT, okNext := termOf(arg)
 			c.check(okNext && okIssued && nextT.byField().equal(issuedT.byField()), rule, name+" receive page tag predicts the order id", pos(rc),
 				"the page is filed under packetCount+1, which is what the next advance stores", fmt.Sprintf("the receive buffer is filed under %s but the next order id issued is %s: the page that holds a received packet is filed under another request's order id and released while still in use", nextT, issuedT))
+			// … and the id travels unchanged down to the allocator: whatever a function on the way hands on of its
+			// order id parameter is the parameter itself
+			var follow func(f *ssa.Function, d int)
+			seenF := map[*ssa.Function]bool{}
+			follow = func(f *ssa.Function, d int) {
+				if f == nil || f.Blocks == nil || !inModule(f) || d > 3 || seenF[f] {
+					return
+				}
+				seenF[f] = true
+				var prm *ssa.Parameter
+				for _, q := range f.Params {
+					if isBasicKind(types.Uint32)(q.Type()) {
+						prm = q
+					}
+				}
+				if prm == nil {
+					return
+				}
+				eachInstr(f, func(in ssa.Instruction) {
+					cc := callOf(in)
+					if cc == nil {
+						return
+					}
+					for _, a := range argsOf(cc) {
+						if !isBasicKind(types.Uint32)(a.Type()) {
+							continue
+						}
+						from := false
+						for _, l := range leavesOf(a) {
+							if l.V == ssa.Value(prm) {
+								from = true
+							}
+						}
+						if bo, ok := a.(*ssa.BinOp); ok && (bo.X == ssa.Value(prm) || bo.Y == ssa.Value(prm)) {
+							from = true
+						}
+						if !from {
+							continue
+						}
+						c.check(a == ssa.Value(prm), rule, fmt.Sprintf("%s hands the order id on unchanged to %s", fnName(f), calleeName(cc)), pos(in), "the parameter itself",
+							"the order id is changed on its way to the allocator ("+affineOf(a).String()+"): the page that holds a received packet is filed under another request's order id and released while still in use")
+						follow(cc.StaticCallee(), d+1)
+					}
+				})
+			}
+			follow(callOf(rc).StaticCallee(), 0)
 			l := innermostLoop(loopsOf(fn), rc.Block())
 			if l == nil {
 				c.bad(rule, name+" receive loop", pos(rc), "recvPacket is not in a loop")
